@@ -26,4 +26,5 @@ def run(ck):
     region.r7_1_overflow_width(ck, P, 'C06-R13')                    # a wrapped coordinate yields malformed (x1 > x2) or misordered rectangles
     region.r6_14_no_coalesce_after_bulk_append(ck, P)
     region.r7_11_limits_are_type_limits(ck, P, 'C06-R16')           # a clamp to a value outside the coordinate type stores a wrapped coordinate: x1 > x2
+    region.r6_17_extents_recomputed_after_subtraction(ck, P)
     region.r5_8_cached_field_follows_cursor(ck, P, 'C06-R15')       # a stale fence emits overlapping, unordered rectangles
